@@ -65,6 +65,25 @@ func genRender(tier string, rng *RNG, emit func(Case)) {
 		}
 		emit(Case{Op: "doc", Args: []string{c.Name(), hx(d)}})
 	})
+	// EVERY name of the HTML5 entity table (read from the tree under test) as a reference in text, a link title, an image
+	// description and an info string, 40 names per document, safe mode with and without XHTML: a handful of entities expand to
+	// text that starts with a character the writers must escape (nvlt, nvgt, ...)
+	if entityNameList == nil {
+		entityNameList = loadEntityNames()
+	}
+	for i := 0; i < len(entityNameList); i += 40 {
+		j := i + 40
+		if j > len(entityNameList) {
+			j = len(entityNameList)
+		}
+		var refs []string
+		for _, nmE := range entityNameList[i:j] {
+			refs = append(refs, "&"+nmE+";")
+		}
+		all := strings.Join(refs, " ")
+		d := "a " + all + "\n\n[l](/u \"" + strings.Join(refs, "") + "\") ![" + strings.Join(refs, "x") + "](/i)\n\n```" + strings.Join(refs[:3], "") + "\nc\n```\n"
+		emit(Case{Op: "doc", Args: []string{Cfg{XHTML: (i/40)%2 == 0}.Name(), hx([]byte(d))}})
+	}
 	// near misses of allowed attribute names on headings (Attribute option on), in safe mode
 	nm := NearMissAttrNames()
 	step := 1
